@@ -22,5 +22,6 @@ def main(tier):
     pure.run(P, rep, pure.query_roots(P))
     rep.explanation = ("Dependence sets of every culling bound (depth cut-off, bounding box) against what the exact extent depends on, "
                        "coverage of the max-accumulators, pairing of constant pre-test bounds with their depth surfaces, full-scan "
-                       "fallback before Surface::local_value throws, and who-may-call of the alias-unaware implementations.")
+                       "fallback before Surface::local_value throws, who-may-call of the alias-unaware implementations, cut-off value of the "
+                       "depth shortcut, and dominance of both longitude buffers of the spherical box over b/cos(latitude) at both trench ends.")
     return rep.finish()
